@@ -69,6 +69,21 @@ type Decision struct {
 	Kind   byte // 't' thread, 's' select arm, 'd' data/environment
 }
 
+// TimerFire records one firing of a virtual timer.
+type TimerFire struct {
+	Step int
+	At   time.Duration // virtual time since Epoch
+}
+
+// TimerInfo describes one virtual timer for oracles that need to relate events to deadlines.
+type TimerInfo struct {
+	Seq         int
+	CreatedStep int
+	Inline      bool // context deadline
+	Deadline    time.Duration
+	FiredStep   int // -1 while it has not fired (last firing for tickers)
+}
+
 // Epoch is the start of virtual time.
 var Epoch = time.Unix(1700000000, 0)
 
@@ -92,8 +107,10 @@ type Sched struct {
 	MaxSteps  int
 	Trace     []string
 	KeepTrace bool
-	// TimerFires lists the step numbers at which a virtual timer fired.
-	TimerFires []int
+	// TimerFires lists the virtual timers that fired: scheduler step and virtual time.
+	TimerFires []TimerFire
+	// TimerLog lists every virtual timer created in the execution, in creation order.
+	TimerLog []*TimerInfo
 
 	prefix    []int
 	Decisions []Decision
@@ -867,6 +884,7 @@ type Timer struct {
 	period time.Duration
 	fn     func()
 	inline func()
+	info   *TimerInfo
 	s      *Sched
 	real   *time.Timer
 }
@@ -927,6 +945,8 @@ func newTimer(d time.Duration, period time.Duration, fn func()) *Timer {
 	defer s.mu.Unlock()
 	s.timerSeq++
 	t := &Timer{C: make(chan time.Time, 1), when: s.now.Add(d), armed: true, seq: s.timerSeq, period: period, fn: fn, s: s}
+	t.info = &TimerInfo{Seq: t.seq, CreatedStep: s.Steps, Deadline: t.when.Sub(Epoch), FiredStep: -1}
+	s.TimerLog = append(s.TimerLog, t.info)
 	s.timers = append(s.timers, t)
 	return t
 }
@@ -949,6 +969,7 @@ func AfterFuncInline(d time.Duration, fn func()) *Timer {
 	}
 	t := newTimer(d, 0, nil)
 	t.inline = fn
+	t.info.Inline = true
 	return t
 }
 
@@ -1027,7 +1048,10 @@ func (s *Sched) fireTimerLocked(t *Timer) {
 	} else {
 		t.armed = false
 	}
-	s.TimerFires = append(s.TimerFires, s.Steps)
+	s.TimerFires = append(s.TimerFires, TimerFire{s.Steps, s.now.Sub(Epoch)})
+	if t.info != nil {
+		t.info.FiredStep = s.Steps
+	}
 	if s.KeepTrace {
 		s.Trace = append(s.Trace, fmt.Sprintf("timer#%d@%v", t.seq, s.now.Sub(Epoch)))
 	}
